@@ -253,4 +253,64 @@ theorem C04_modack_zero (db : Db) (now : Time) (ids : List Id) (Δ : Int) (hΔ :
       exact mem_dedup this
   · omega
 
+/-- the nominal back-off is positive, so a lease never ends more than the float tolerance before it began -/
+theorem nominal_pos (minB maxB : Option Int) (n : Nat) : 0 < nominal minB maxB n := by
+  unfold nominal
+  simp only
+  split
+  · exact effMax_pos maxB
+  · have := raw_ge_min (effMin minB) (Int.le_of_lt (effMin_pos minB)) n
+    have := effMin_pos minB
+    omega
+
+theorem nominal_tol_nonneg (minB maxB : Option Int) (n : Nat) :
+    -2 ≤ nominal minB maxB n - tol (nominal minB maxB n) := by
+  have hp := nominal_pos minB maxB n
+  unfold tol
+  have : nominal minB maxB n / 1099511627776 ≤ nominal minB maxB n :=
+    Int.ediv_le_self _ (Int.le_of_lt hp)
+  omega
+
+/-- **C04 (delivered again after the deadline)**: the row a pull handed out as attempt `n` is, in the
+    state the pull leaves, deliverable again on that subscription at every instant from its retry
+    deadline `now + δ` on — for as long as it is neither acknowledged nor past its retention, and (on
+    an ordered subscription) not blocked by its predecessor: nothing else is needed for the next
+    pull's query to select it, with attempt number `n + 1`. -/
+theorem C04_redelivered (st : St) (s : String) (mx mb : Nat) (strict : Bool) (wait : Int) (obs : PullObs)
+    (i : Id) (n : Nat) (hmem : (i, n) ∈ (step st (.pull s mx mb strict wait obs)).2.delivered) :
+    ∃ sub c', st.db.liveSubByName s = some sub ∧
+      (step st (.pull s mx mb strict wait obs)).1.db.delById i = some c' ∧ c'.attempts = n ∧ c'.subId = sub.id ∧
+      c'.completedAt = none ∧ st.now ≤ c'.attemptAt + oneSecond ∧
+      ∀ t, c'.attemptAt ≤ t → t < c'.expiresAt →
+        (sub.ordered = false ∨ (step st (.pull s mx mb strict wait obs)).1.db.predDone t c' = true) →
+        (step st (.pull s mx mb strict wait obs)).1.db.eligible sub t c' = true := by
+  obtain ⟨sub, c, δ, hs, hc, hn, hcomp, hdue, hlo, _, hafter⟩ := C04_lease_set st s mx mb strict wait obs i n hmem
+  -- the row belongs to the pulled subscription
+  have hsub : c.subId = sub.id := by
+    simp only [step] at hmem
+    cases h : pull st.db st.now s mx mb strict wait obs with
+    | error e => simp [h] at hmem
+    | ok r =>
+      obtain ⟨o, now'⟩ := r
+      simp only [h] at hmem
+      obtain ⟨s', hs', hall⟩ := pull_delivered_spec h
+      rw [hs] at hs'; injection hs' with hs'; subst hs'
+      obtain ⟨c2, hc2, helig, _⟩ := hall (i, n) hmem
+      rw [hc] at hc2; injection hc2 with hc2; subst hc2
+      unfold Db.eligible at helig
+      simp only [Bool.and_eq_true, beq_iff_eq] at helig
+      exact helig.1.1.1
+  refine ⟨sub, _, hs, hafter, rfl, hsub, hcomp, ?_, ?_⟩
+  · -- the deadline is not before the delivery (back-off ≥ 0 up to the jitter tolerance)
+    show st.now ≤ st.now + δ + oneSecond
+    have := nominal_tol_nonneg sub.minBackoff sub.maxBackoff n
+    unfold oneSecond
+    unfold Time at *
+    omega
+  · intro t h1 h2 h3
+    unfold Db.eligible Delivery.isOpen
+    simp only [hsub, beq_self_eq_true, hcomp, Option.isNone_none, Bool.true_and, Bool.and_eq_true, decide_eq_true_eq,
+      Bool.or_eq_true, Bool.not_eq_true']
+    exact ⟨⟨h2, h1⟩, h3⟩
+
 end Mmmbbb
